@@ -40,7 +40,13 @@ def main(argv=None) -> int:
         if args.replay:
             with open(args.replay) as f:
                 run.only_key = json.load(f)["key"]
-        mod.check(prog, run)
+        # a rule that cannot see what it needs ends the property's own rules (exit 2), but the
+        # rules shared by all properties still run: what they find is a finding
+        try:
+            mod.check(prog, run)
+        except AnalysisError as e:
+            run.errors.append(str(e))
+            run.floors = {}
         from .rules import shared
         shared.run_shared(prog, run, prop)
         if args.tier == "thorough" and hasattr(mod, "thorough"):
